@@ -156,9 +156,6 @@ func c46Scenarios(thorough bool) (small, big []string) {
 	rec("")
 	// tasks that succeed with the zero value, alone and next to waiting / slow / failing tasks
 	zs := []string{"Z|cancel=0", "Z|cancel=1", "z|cancel=1", "ZW|cancel=1", "WZ|cancel=1", "zW|cancel=1", "ZS|cancel=1", "ZE|cancel=1", "ZWS|cancel=1", "SZW|cancel=1", "zWV|cancel=1"}
-	if thorough {
-		zs = append(zs, "ZZW|cancel=1", "zzW|cancel=1", "WzS|cancel=1", "ZWSE|cancel=1", "zWzW|cancel=1")
-	}
 	for _, s := range zs {
 		if len(strings.SplitN(s, "|", 2)[0]) <= 2 {
 			small = append(small, s)
